@@ -821,3 +821,159 @@ func isNamed(t types.Type, name string) bool {
 	n, ok := t.(*types.Named)
 	return ok && n.Obj().Name() == name
 }
+
+// FrameRule: the number that prefixes a function-local variable name identifies the
+// function body being emitted: it is a converter field advanced by FuncStart on every
+// call and changed by nothing else, so two function bodies never share a prefix.
+func FrameRule(w *World, b *Backend, r *Result, rule string) {
+	origins := map[string][]string{} // numeric origin -> where it prefixes a user variable name
+	var scan func(t Tmpl, where string)
+	scan = func(t Tmpl, where string) {
+		for i, p := range t {
+			switch p := p.(type) {
+			case Alt:
+				for _, o := range p.Opts {
+					scan(o, where)
+				}
+			case Rep:
+				scan(p.Body, where)
+			case Join:
+				scan(p.Elem, where)
+			case Num:
+				if i+2 < len(t) {
+					l, ok1 := t[i+1].(Lit)
+					h, ok2 := t[i+2].(Hole)
+					if ok1 && ok2 && l.S == "_" && classOfOrigin(h.Origin, "") == ClsIdent {
+						origins[p.Origin] = append(origins[p.Origin], where+"("+h.Origin+")")
+					}
+				}
+			}
+		}
+	}
+	var names []string
+	for n := range b.X.Methods {
+		names = append(names, n)
+	}
+	sort.Strings(names)
+	for _, name := range names {
+		mf := b.X.Methods[name]
+		for _, em := range mf.Emissions {
+			scan(em.T, name)
+		}
+		for _, rv := range mf.Returns {
+			if v, ok := rv.(StrV); ok {
+				scan(v.T, name)
+			}
+		}
+	}
+	if len(origins) == 0 {
+		r.Bad(rule, "frame:"+b.Role+":prefix", "-", "no numbered prefix of a function-local variable name found in any line template")
+		return
+	}
+	var os []string
+	for o := range origins {
+		os = append(os, o)
+	}
+	sort.Strings(os)
+	reField := regexp.MustCompile(`^field:(\w+)$`)
+	for _, o := range os {
+		key := "frame:" + b.Role + ":" + o
+		usedBy := strings.Join(uniq(origins[o]), ", ")
+		m := reField.FindStringSubmatch(o)
+		if m == nil {
+			r.Bad(rule, key, "-", fmt.Sprintf("function-local names are prefixed with %s, which is not a counter of emitted function bodies: it returns to an earlier value when a function ends, so two functions share the names of their locals and a callee overwrites its caller's variables (used by %s)", o, usedBy))
+			continue
+		}
+		f := m[1]
+		var bad []string
+		bumps := 0
+		pos := "-"
+		for _, name := range names {
+			mf := b.X.Methods[name]
+			for _, v := range mf.FieldsSet[f] {
+				inc := strings.Contains(v, "field:"+f+"+1")
+				switch {
+				case name == "FuncStart" && inc:
+					bumps++
+					pos = w.Pos(mf.Fn.Pos())
+				default:
+					bad = append(bad, fmt.Sprintf("%s stores %s", name, v))
+				}
+			}
+		}
+		switch {
+		case len(bad) > 0:
+			r.Bad(rule, key, pos, fmt.Sprintf("the prefix counter %s is also changed outside the function opener (%s): a later function body can receive a prefix already in use", f, strings.Join(bad, "; ")))
+		case bumps == 0:
+			r.Bad(rule, key, pos, fmt.Sprintf("FuncStart does not advance the prefix counter %s: every function body shares one prefix", f))
+		default:
+			// the bump precedes every line FuncStart emits (parameters are named with the new prefix)
+			if msg := bumpDominatesEmits(b, "FuncStart", f); msg != "" {
+				r.Bad(rule, key, pos, msg)
+			} else {
+				r.Ok(rule, key, pos, fmt.Sprintf("prefix %s: advanced by FuncStart before its first line, stored by no other method; prefixes %s", o, usedBy))
+			}
+		}
+	}
+}
+
+// bumpDominatesEmits: in method m the store to field f dominates every call that can emit a line.
+func bumpDominatesEmits(b *Backend, m, f string) string {
+	mf := b.X.Methods[m]
+	if mf == nil || mf.Fn == nil {
+		return "method " + m + " not found"
+	}
+	var store ssa.Instruction
+	for _, blk := range mf.Fn.Blocks {
+		for _, ins := range blk.Instrs {
+			if st, ok := ins.(*ssa.Store); ok {
+				if fa, ok := st.Addr.(*ssa.FieldAddr); ok {
+					if fieldName(fa) == f {
+						store = st
+					}
+				}
+			}
+		}
+	}
+	if store == nil {
+		return "no direct store to " + f + " in " + m
+	}
+	for _, blk := range mf.Fn.Blocks {
+		for i, ins := range blk.Instrs {
+			c, ok := ins.(ssa.CallInstruction)
+			if !ok {
+				continue
+			}
+			callee := c.Common().StaticCallee()
+			if callee == nil || callee.Pkg != mf.Fn.Pkg || c.Common().Signature().Recv() == nil {
+				continue
+			}
+			// any method of the converter called before the bump could form a name or emit
+			before := false
+			if blk == store.Block() {
+				for j, x := range blk.Instrs {
+					if x == store {
+						before = i < j
+					}
+				}
+			} else if !store.Block().Dominates(blk) {
+				before = true
+			}
+			if before {
+				return fmt.Sprintf("%s calls %s before advancing %s: the parameters are named with the previous function's prefix while the body uses the new one", m, callee.Name(), f)
+			}
+		}
+	}
+	return ""
+}
+
+func fieldName(fa *ssa.FieldAddr) string {
+	t := fa.X.Type().Underlying()
+	if p, ok := t.(*types.Pointer); ok {
+		t = p.Elem().Underlying()
+	}
+	if st, ok := t.(*types.Struct); ok && fa.Field < st.NumFields() {
+		return st.Field(fa.Field).Name()
+	}
+	return ""
+}
